@@ -331,7 +331,7 @@ def shrink(ops, fx, pred):
 def unit_histories(ctx, mode):
     fx = 1 if mode == "fixed" else 0
     # C02 uses no generated source constants: only drift of its own anchors escalates the budget
-    n = 4000 if ctx.thorough else (200 if not ctx.drift else 400)
+    n = 3500 if ctx.thorough else (200 if not ctx.drift else 400)
     if os.environ.get("C02_NHIST"):        # debugging aid (bug-detection trials on a loaded machine)
         n = int(os.environ["C02_NHIST"])
     fresh = "all"
